@@ -258,7 +258,7 @@ package client
 //@   serves C17 C18
 //@   opt nomonitor = 1
 //@   opt partial = 1
-//@   requires c != nil && m != nil && typeis(aval(c.nextMessageID), uint64)
+//@   requires c != nil && m != nil && typeis(aval(c.nextMessageID), uint64) && typeis(aval(c.accepted), bool)
 //@   ensures tx_match: [C17] typeis(m.Payload, *Tx) && as(m.Payload, *Tx).ID == old(nextID(c)) ==> nextID(c) == uint64(old(nextID(c)) + 1)
 //@   ensures tx_skip: [C17] typeis(m.Payload, *Tx) && as(m.Payload, *Tx).ID != old(nextID(c)) ==> nextID(c) == old(nextID(c))
 //@   ensures update_match: [C17] typeis(m.Payload, *TxUpdate) && as(m.Payload, *TxUpdate).ID == old(nextID(c)) ==> nextID(c) == uint64(old(nextID(c)) + 1)
@@ -270,6 +270,8 @@ package client
 //@        && SigVerify(as(m.Payload, *AcceptRegister).Signature, accDigest(*as(m.Payload, *AcceptRegister), c.hash), as(m.Payload, *AcceptRegister).Key)
 //@   assert handshake_guard at call Store(handshakeComplete) : [C18] typeis(m.Payload, *AcceptRegister) && KeyEq(as(m.Payload, *AcceptRegister).Key, c.serverSessionKey)
 //@        && SigVerify(as(m.Payload, *AcceptRegister).Signature, accDigest(*as(m.Payload, *AcceptRegister), c.hash), as(m.Payload, *AcceptRegister).Key)
+//@   assert offer_needs_accept at call addHandlerMessage : [C18] bval(aval(c.accepted))
+//@   assert answer_needs_accept at call addRequestResponse : [C18] bval(aval(c.accepted))
 //@   assert accept_offer at call addHandlerMessage : [C18] typeis(m.Payload, *AcceptRegister) ==> KeyEq(as(m.Payload, *AcceptRegister).Key, c.serverSessionKey)
 //@        && SigVerify(as(m.Payload, *AcceptRegister).Signature, accDigest(*as(m.Payload, *AcceptRegister), c.hash), as(m.Payload, *AcceptRegister).Key)
 
